@@ -503,15 +503,20 @@ class DiffXReader(object):
                             newline=newline,
                             keep_ends=True)
 
+        if indent is not None and (not isinstance(indent, int) or
+                                   indent < 0):
+            raise DiffXParseError(
+                'Expected the indent option to be a non-negative integer',
+                linenum=self._linenum)
+
         if indent:
             # It's important that we don't assume each line is actually
             # indented correctly. There could be nothing but a newline,
             # or due to some error the indentation on some line may be
             # wrong. Be careful to strip only the spaces, up to the specified
             # indentation level.
-            indent_re = re.compile(br'^ {1,%d}' % indent)
             content = b''.join(
-                indent_re.sub(b'', _line)
+                _line[min(indent, len(_line) - len(_line.lstrip(b' '))):]
                 for _line in lines
             )
 
